@@ -1210,7 +1210,15 @@ impl<'a, SE: extensions::ShellExtensions> WordExpander<'a, SE> {
                     _ => {
                         let expanded_default = self.expand_parameter_word(default_value).await?;
                         let expanded_default_value = self.fields_to_string(expanded_default);
-                        self.assign_to_parameter(&parameter, expanded_default_value.clone())
+                        // `${!ref:=w}` assigns to the parameter that `ref` names, not to `ref`.
+                        let target = if indirect {
+                            let named = self.expand_parameter(&parameter, false).await?;
+                            let named = self.fields_to_string(named);
+                            brush_parser::word::parse_parameter(named.as_str(), &self.parser_options)?
+                        } else {
+                            parameter
+                        };
+                        self.assign_to_parameter(&target, expanded_default_value.clone())
                             .await?;
                         Ok(Expansion::from(expanded_default_value))
                     }
